@@ -89,16 +89,16 @@ func isPanic(d any) bool {
 }
 
 type c17Scenario struct {
-	id       string // property the scenario reports under (C17, or C12 for the completion-order scenarios)
-	name     string
-	pattern  string // one letter per non-root certificate
-	entry    string // validate | checkstatus
-	callers  int
-	cache    bool
-	inject   int // max injected panics / cancellations
-	fetcher  string // http | fake (caller-supplied fetcher that parks)
-	once     sync.Once
-	w        *revWorld
+	id      string // property the scenario reports under (C17, or C12 for the completion-order scenarios)
+	name    string
+	pattern string // one letter per non-root certificate
+	entry   string // validate | checkstatus
+	callers int
+	cache   bool
+	inject  int    // max injected panics / cancellations
+	fetcher string // http | fake (caller-supplied fetcher that parks)
+	once    sync.Once
+	w       *revWorld
 }
 
 func (s *c17Scenario) world() *revWorld {
